@@ -110,4 +110,18 @@ CLAIMED = {
         note="Partial where the truth is in the runtime: scheduler, memory model and kernel are not modelled; List and "
              "AtomicCreate on DirFs are multi-call by design (List is only issued on a quiet directory).",
         tech="Lean 4 proof (generic lock theorem instance) + lock summaries (T-gen) + porcupine/race stress"),
+    "C18": dict(
+        text="Machine-checked proofs (Lean 4 kernel) over a model of cmd/test_gen (line scanner, the deterministic matcher "
+             "the two regular expressions denote, file filters, emitted text): the matcher accepts exactly the lines "
+             "func<ws>[failing_]test<alnum+>(...; each generator emits exactly one entry per accepted line of each "
+             "non-skipped file, in order, and nothing else; both emit the same tests; failing_ tests and only they are "
+             "marked Fail in Coq. Tie: regenerated regex literals, suffix filters, main() text and header constants (rfl) "
+             "and the REAL test_gen binary run on generated gofmt-formatted directories in both modes: its text must "
+             "equal the model's, and its tests must be the top-level test functions go/parser finds; generated Go files "
+             "of a sample are compiled (go vet).",
+        ref="DESIGN.md §6 C18",
+        note="Trusted: RE2 semantics of the two expressions as implemented by the hand-written matcher (sampled), "
+             "bufio.Scanner and os.ReadDir behaviour. Two defects found by this check were repaired in /repo; two are "
+             "known findings (header-like lines inside raw strings/comments; unused import with zero tests).",
+        tech="Lean 4 proof (matcher language, generator structure) + regenerated facts + differential correspondence against the real binary and go/parser"),
 }
